@@ -212,3 +212,6 @@ def _map_join_batch(items, mc, second, missing):
     return sorted(acks) == sorted(["id1"] + [x for x in ids if x])
 
 more.register(globals(), {"C05", "C02", "C09"}, ["gen_nested"], {"gen_nested": [("_par_ik%d_ok" % i, "rk == 0 and ik == %d and failing == 0" % i) for i in range(3)] + [("_map%d_ik%d_ok" % (m, i), "rk == 1 and rmc == %d and ik == %d and failing == 0" % (m, i)) for m in range(3) for i in range(3)]})
+
+import s2_found as found
+found.register(globals(), {"C05", "C02", "C03"}, ["inner_join_failure"])
